@@ -1,10 +1,10 @@
 CONSTANTS
-  W = 2
-  H = 2
-  Traps = {}
+  W = 4
+  H = 4
+  Traps = {6}
   Complement <- StdComplement
-  Roots <- Roots22
-  MaxTurns = 9
+  Roots <- Roots44
+  MaxTurns = 2
   StopAtResult = FALSE
 SPECIFICATION Spec
 CONSTRAINT TurnBound
